@@ -7,6 +7,8 @@ import (
 	"os"
 	"reflect"
 	"runtime/debug"
+	"strings"
+	"time"
 	"testing"
 
 	sdkmath "cosmossdk.io/math"
@@ -308,6 +310,16 @@ func TestC17Tx(t *testing.T) {
 			msgs = append(msgs, companion(fmt.Sprintf("cb%d", i)))
 		}
 		if forgery == "authz-exec" {
+			// half of the time the attacker does hold an authz grant from that very account – for some *other* message type
+			if UniformDraw(rt, "othergrant", 2) == 1 {
+				other := []string{"/cosmos.bank.v1beta1.MsgMultiSend", "/elys.tier.MsgSetPortfolio", "/cosmos.gov.v1.MsgVote", "/elys.masterchef.MsgClaimRewards"}[UniformDraw(rt, "othergranttype", 4)]
+				if other != sdk.MsgTypeURL(protected) {
+					exp := ctx.BlockTime().Add(24 * time.Hour)
+					if err := w.App.AuthzKeeper.SaveGrant(ctx, att.Addr, owner, authz.NewGenericAuthorization(other), &exp); err == nil {
+						forgery = "authz-exec+grant-for-another-type"
+					}
+				}
+			}
 			ex := authz.NewMsgExec(att.Addr, []sdk.Msg{protected})
 			msgs = append(msgs, &ex)
 		} else {
@@ -336,7 +348,7 @@ func TestC17Tx(t *testing.T) {
 				signers = append(signers, c)
 			}
 		}
-		if forgery != "authz-exec" && !seen[string(owner)] {
+		if !strings.HasPrefix(forgery, "authz-exec") && !seen[string(owner)] {
 			rt.Fatalf("VIOLATION C17: %s does not demand the signature of the account in its authority / owner field", sdk.MsgTypeURL(protected))
 		}
 		junk := rapid.SliceOfN(rapid.Byte(), 64, 64).Draw(rt, "junk")
@@ -366,7 +378,7 @@ func TestC17Tx(t *testing.T) {
 			}
 			sum.record("", false, []string{"tx/panic: " + msg}, nil)
 		}
-		nt := len(msgs) > 1 || forgery == "authz-exec"
+		nt := len(msgs) > 1 || strings.HasPrefix(forgery, "authz-exec")
 		sum.record(sdk.MsgTypeURL(protected)+"|"+forgery+"|"+fmt.Sprint(urls), nt, []string{"tx/refused-at-" + stage, "tx/forgery=" + forgery, "tx/class=" + class, fmt.Sprintf("tx/companions=%d", len(msgs)-1)},
 			map[string]any{"protected": sdk.MsgTypeURL(protected), "forgery": forgery, "messages": urls, "refused_at": stage})
 	})
